@@ -112,6 +112,23 @@ CLAIMED['C16'] = dict(
          'concurrent close; two simultaneous reconnect attempts.',
     design='6/C16')
 
+CLAIMED['C17'] = dict(
+    level='fault_enumeration',
+    text='For every generated module (persistent parameters of all datatypes, auto/explicit saving, write methods, '
+         'configured values) and operation history (set, assign, save, load, factory reset, restart) the real '
+         'PersistentMixin is re-run once for EVERY file-system operation of every step x {error, torn write, crash '
+         'before / after / inside} under two write models (unbuffered, buffered until close) - exhaustive per history; '
+         'the stored file is corrupted by truncation at every byte, sampled bit flips, type/key changes and an unreadable '
+         'file. After each crash the file must be the previous or the new complete snapshot and a restart from the '
+         'directory must restore it (configuration wins); a failed save must be retried by the next save; corrupt '
+         'files never prevent module creation and unusable entries fall back individually.',
+    note='Trusted: sim.fs interposer (process-crash model: completed system calls survive), dispatcher/secnode stubs. '
+         'Histories and datatypes are sampled (seeded), the fault placement per history is enumerated exhaustively; '
+         'power loss without fsync is not judged. One fault per replay.',
+    technique='deterministic simulation: exhaustive single-fault enumeration over interposed file operations per '
+              'seeded operation history, crash-and-restart from durable state',
+    design='6/C17')
+
 NOT_APPLICABLE = {
     'C01': 'pure function of (datatype, candidate, previous) - no schedule, clock, I/O or fault dimension for a simulator to decide',
     'C02': 'pure round-trip law over (datatype, value) - no schedule, clock, I/O or fault dimension',
